@@ -23,8 +23,10 @@ PIT_PROGS = {
     # a channel concat whose operands all have a constant width (the network input and a pooled copy of it)
     'pit1d_catin': {'dim': 1, 'cin': 3, 'size': 8, 'stages': [{'op': 'concat', 'members': ['id', 'mp']}, {'op': 'conv', 'bn': True}],
                     'head': {'kind': 'flatlin'}},
+    # two flattened branches of different spatial size concatenated in front of the linear layer
+    'pit1d_flatcat': {'dim': 1, 'cin': 3, 'size': 8, 'stages': [{'op': 'conv', 'k': 3}], 'head': {'kind': 'flatcat'}},
     'pit2d': {'dim': 2, 'cin': 3, 'size': 6,
-              'stages': [{'op': 'conv', 'bn': True}, {'op': 'residual'}, {'op': 'pool', 'kind': 'max'}],
+              'stages': [{'op': 'conv', 'bn': True}, {'op': 'conv', 'dw': True}, {'op': 'residual'}, {'op': 'pool', 'kind': 'max'}],
               'head': {'kind': 'flatlin'}},
 }
 
